@@ -6,6 +6,7 @@
 -/
 import Gvlean.Proofs.Ctx
 import Gvlean.Proofs.CtxAny
+import Gvlean.Proofs.Template
 
 namespace Props
 open Go Gen Proofs
@@ -82,5 +83,16 @@ theorem c15_report_only_undisturbed {β : Type} (ev : β → Option (List Gen.En
 example : runG (β := Nat) (fun n => if n == 2 then none else some (if n == 1 then [⟨["S", "F"], "cel", "x"⟩] else []))
     (fun k => if k ≥ 2 then some .deadline else none) [0, 1, 2] 0 [] = .ctxErr .deadline := by decide
 
+
+/-- REGENERATED TIE of the skeleton: the template, as re-extracted from /repo by rulefacts on this run, consists of
+    exactly the statement forms `runBlocks` / `runG` model — nil guard before anything else; for every metadata entry
+    with validators exactly one of the two (mutually exclusive) openings, each of which polls
+    `if ctx.Err() != nil { return ctx.Err() }` BEFORE the entry's checks; report-or-nil only after the last entry;
+    `Validate<T>` = `Validate<T>Context(context.Background(), t)` and the two methods delegate. -/
+theorem c15_template :
+    Facts.tmplTokens = Gen.Tmpl.all ∧
+    (∃ pre post, Facts.tmplTokens = pre ++ Gen.Tmpl.nestedOpen ++ Gen.Tmpl.topPoll ++ Gen.Tmpl.checks ++ post) ∧
+    (∃ pre, Facts.tmplTokens = pre ++ Gen.Tmpl.tail) :=
+  ⟨Proofs.template_tied, Proofs.template_polls, Proofs.template_tail⟩
 
 end Props
